@@ -37,7 +37,8 @@ DETERMINISTIC = {
     "routing.sokoban.generator.DeepMindGenerator": None,  # random: listed here only to document that it is NOT exempt
 }
 CHOICE_EXCEPTIONS = {
-    ("routing.robot_warehouse.utils_spawn", "agent_dirs"): "agent directions may repeat (they are not positions)",
+    # keyed by (module, population argument): what is drawn from, not the name of the local it is stored in
+    ("routing.robot_warehouse.utils_spawn", "_POSSIBLE_DIRECTIONS"): "agent directions may repeat (they are not positions)",
 }
 MIN_GENERATORS = 28
 
@@ -150,7 +151,8 @@ def check(tier: str) -> Result:
             for st in ast.walk(m.tree):
                 if isinstance(st, ast.Assign) and st.value is node and isinstance(st.targets[0], ast.Name):
                     tgt = st.targets[0].id
-            exc = CHOICE_EXCEPTIONS.get((short(m.name), tgt))
+            pop = kw.get("a", node.args[1] if len(node.args) > 1 else None)
+            exc = CHOICE_EXCEPTIONS.get((short(m.name), ast.unparse(pop) if pop is not None else None))
             one = isinstance(shape, (ast.List, ast.Tuple)) and len(shape.elts) == 1 and isinstance(shape.elts[0], ast.Constant) and shape.elts[0].value == 1
             if exc:
                 res.add("C10.R2", f"{m.relpath}:{node.lineno}", short(m.name), f"multi-sample draw `{tgt}` (recorded exception)", True, exc)
